@@ -109,7 +109,8 @@ Proof.
     set (p := pad4n (len xml)).
     assert (Hp : pages_for (48 + (len body + (len xml + p))) = pages_for (48 + len body + len xml)).
     { subst p. unfold pad4n, pages_for, PAYLOAD_SZ. lia. }
-    rewrite Hp, spec_header_eq.
+    rewrite Hp.
+    match goal with |- _ = paginate (spec_header ?a ?b ?c ++ _) => change (spec_header a b c) with (hdr a b c) end.
     set (H := hdr _ _ _).
     replace (H ++ body ++ xml ++ zeros p) with ((H ++ body ++ xml) ++ zeros p) by (rewrite <- !app_assoc; reflexivity).
     symmetry. apply paginate_zeros.
